@@ -34,6 +34,9 @@ def must_see(tier):
     m['cross:c->py'] = 50
     m['cross:py->c'] = 50
     m['pickles-identical'] = 200
+    m['db-commits-compared'] = 100
+    m['db-cross-read:c->py'] = 50
+    m['db-cross-read:py->c'] = 50
     return m
 
 
@@ -41,7 +44,7 @@ def plan(tier, seed):
     q = tier == 'quick'
     specs = []
     for fam in families.FAMILY_NAMES:
-        specs.append(dict(label=fam, family=fam, containers=8 if q else 80,
+        specs.append(dict(label=fam, family=fam, containers=16 if q else 120,
                           seed=seed, tier=tier, variant='mon',
                           timeout=900 if q else 3000))
     if not q:
@@ -91,6 +94,8 @@ def run_shard(spec, rec):
         for kind in families.KINDS:
             rng = rng_for(spec['seed'], ID, spec['label'], kind, ci)
             run_case(fam, kind, rng, rec, ci)
+            if ci % 2 == 0:
+                run_db_case(fam, kind, rng, rec, ci)
 
 
 def same_history_pair(fam, kind, rng, sizes, ci):
@@ -104,6 +109,20 @@ def same_history_pair(fam, kind, rng, sizes, ci):
                                 # in place: different shapes (finding F28,
                                 # judged by C09)
                                 exclude=('iand',))
+    # legal but unusual data: int subclasses (bool) as integer keys / values
+    if ci % 3 == 2 and kind in ('BTree', 'Bucket', 'Set', 'TreeSet'):
+        extra = []
+        if fam.kc in 'IULQ':
+            extra.append(('add', (True,)) if kind in ('Set', 'TreeSet')
+                         else ('setitem', (True, lsc.g._val())))
+        if fam.vc in 'IULQ' and kind in ('BTree', 'Bucket'):
+            extra.append(('setitem', (rng.choice(lsc.g.universe), True)))
+            extra.append(('setdefault', (rng.choice(lsc.g.universe), False)))
+        if fam.vc == 'F' and kind in ('BTree', 'Bucket'):
+            extra.append(('setitem', (rng.choice(lsc.g.universe), True)))
+            extra.append(('setitem', (rng.choice(lsc.g.universe), 3)))
+        for op, args in extra:
+            lsc.step(op, args)
     # replay the literal history on the Python class
     cls = fam.cls(kind, 'py')
     if sizes and kind in families.TREE_KINDS:
@@ -114,6 +133,136 @@ def same_history_pair(fam, kind, rng, sizes, ci):
         a = tuple(gen.materialize(x, fam, 'py', p, False) for x in args)
         harness.call(p, op, a)
     return lsc, p
+
+
+def canon_graph(storage, root_oid):
+    """[(class name, state with references renamed)] in discovery order."""
+    names = {root_oid: 0}
+    order = [root_oid]
+    out = []
+    i = 0
+    while i < len(order):
+        oid = order[i]
+        i += 1
+        tid, clsname, data = storage.current(oid)
+        up = pickle.Unpickler(io.BytesIO(data))
+
+        def pl(ref):
+            o = ref[0]
+            if o not in names:
+                names[o] = len(names)
+                order.append(o)
+            return ('REF', names[o], tuple(ref[1]))
+        up.persistent_load = pl
+        out.append((tuple(clsname), up.load()))
+    return out
+
+
+def run_db_case(fam, kind, rng, rec, ci):
+    """The same history, committed at the same points, through MiniDB with
+    the C and with the Python classes: the stored records (class name and
+    state bytes per oid) must be identical, and each implementation must be
+    able to read the other's database."""
+    is_tree = kind in families.TREE_KINDS
+    is_mapping = kind in families.MAPPING_KINDS
+    sizes = gen.NODE_SIZES[ci % len(gen.NODE_SIZES)] if is_tree else None
+    vals = [v for v in fam.values(rng)
+            if not isinstance(v, float) or f32(v) == v]
+    sto = {}
+    conn = {}
+    obj = {}
+    for impl in ('c', 'py'):
+        sto[impl] = minidb.Storage()
+        conn[impl] = minidb.Connection(sto[impl], impl)
+        conn[impl].log_events = False
+        obj[impl] = hist.make_container(fam, kind, impl, sizes)
+        conn[impl].add(obj[impl])
+        conn[impl].commit()
+    g = gen.HistoryGen(fam, kind, rng, values=vals, adversarial=0.4,
+                       read_ops=False)
+    g.exclude = ('iand',)
+    if sizes:
+        g.max_leaf = sizes[0]
+    log = []
+    desc = dict(family=fam.name, kind=kind, sizes=sizes, impl='c-vs-py')
+    n = rng.randint(20, 90)
+    f22 = False
+    f34 = False
+    for step in range(n):
+        present = list(obj['c'].keys())
+        w = walker.walk(obj['c'], is_mapping) if is_tree else None
+        op, args = g.next_op(w, present)
+        log.append((op, args))
+        for impl in ('c', 'py'):
+            a = tuple(gen.materialize(x, fam, impl, obj[impl], False)
+                      for x in args)
+            harness.call(obj[impl], op, a)
+        if rng.random() < 0.3 or step == n - 1:
+            if is_tree:
+                wc = walker.walk(obj['c'], is_mapping)
+                if wc.inline_nonroot:
+                    f22 = True
+            try:
+                for impl in ('c', 'py'):
+                    conn[impl].commit()
+            except Exception as e:
+                rec.violation('commit-raised', detail='%s: %s' % (
+                    type(e).__name__, e), **desc)
+                return
+            if is_tree and minidb.embedded_but_leaf_has_oid(
+                    conn['c'], obj['c']):
+                f34 = True
+                rec.ev('f34-condition')
+            rec.evaluations += 1
+            rec.ev('db-commits-compared')
+            # oids are handed out in the order objects are discovered while
+            # pickling, which may differ; the record GRAPH must be the same:
+            # same class and same state for every object reachable from the
+            # root, with references renamed in order of first appearance
+            gc_ = canon_graph(sto['c'], obj['c']._p_oid)
+            gp_ = canon_graph(sto['py'], obj['py']._p_oid)
+            diff = None
+            if len(gc_) != len(gp_):
+                diff = 'different numbers of stored objects: %d vs %d' % (
+                    len(gc_), len(gp_))
+            else:
+                for i_, (a_, b_) in enumerate(zip(gc_, gp_)):
+                    if a_[0] != b_[0] or not eq(a_[1], b_[1]):
+                        diff = 'record #%d differs: %r vs %r' % (i_, a_, b_)
+                        break
+            if diff:
+                d = dict(desc, detail=diff[:600],
+                         history=[brief(x, 90) for x in log[-40:]])
+                rec.violation('c-and-python-records-differ', **d)
+                return
+            # each implementation reads the other's database
+            want = harness.contents(obj['c'], is_mapping)
+            for wimpl, rimpl in (('c', 'py'), ('py', 'c')):
+                rc = minidb.Connection(sto[wimpl], rimpl)
+                rc.log_events = False
+                r = rc.get(obj[wimpl]._p_oid)
+                errs = []
+                try:
+                    got = harness.contents(r, is_mapping)
+                    if not eq(got, want):
+                        errs.append(('contents', brief(got, 200)))
+                    if is_tree:
+                        e2, _ = hist.structural_checks(r, is_mapping)
+                        errs += e2
+                except Exception as e:
+                    errs.append(('raised', '%s: %s' % (type(e).__name__, e)))
+                rec.ev('db-cross-read:%s->%s' % (wimpl, rimpl))
+                if errs:
+                    d = dict(desc, writer=wimpl, reader=rimpl, errors=errs[:3],
+                             history=[brief(x, 90) for x in log[-40:]])
+                    if f22:
+                        d['finding'] = 'F22'
+                    elif f34:
+                        d['finding'] = 'F34'
+                    rec.violation('database-not-readable-by-other-impl', **d)
+                    return
+            if f22:
+                return
 
 
 def run_case(fam, kind, rng, rec, ci):
